@@ -226,7 +226,7 @@ def screen_check(scn, res, all_chunks):
                 v["h"] = None   # the hooked flush of this thread rendered to nothing (no write call); this is a later, plain write
             if v["hooked"] and v["h"] is not None:
                 erase = 0 if v["pos"] is None else v["pos"]   # rows erased (an empty frame still erases the row it is on)
-                if erase != (disp_h if v["pos"] is None else max(disp_h, 1)) and stale is None:
+                if erase != (max(disp_h, 1) if active else 0) and stale is None:
                     stale = ("taller" if erase < disp_h else ("stop" if finished else "shorter"), tid, erase, disp_h)
                 for c in user:
                     printed += c[:-1].split("\n")
@@ -580,7 +580,13 @@ MANIFEST = {
     "under random-walk / PCT schedulers and line-granularity runs; the theorems' executable statements are evaluated on the real "
     "output of every run (one write call per print, capture contents, export order, lock held at every write, no deadlock / "
     "exception, terminal replay of the file).",
-    "note": "PARTIAL: (1) the screen theorem is proved for constant-height sessions only; today's code breaks the general statement "
+    "note": "Start/stop races: several threads may call start()/stop() of a Live or Progress at once (fixed + random scenarios); direct "
+    "evaluation: hook stack depth <= 1 at all times, cursor hidden once, sys.stdout/stderr wrapped once, after stop depth 0 / cursor "
+    "visible / a print draws no frame.  Line probes preempt a printing thread at every line of live_render.py / live.py.  Variant flag "
+    "stopTailUnlocked (today 1): Progress.stop erases / resets _shape after releasing its lock (witness "
+    "old_progress_stop_tail_races_start); repaired by pending_fixes/C11-progress-stop-tail-outside-lock.diff; the torn read of _shape in "
+    "LiveRender (TypeError under a concurrent Progress.stop) is repaired by pending_fixes/C11-progress-shape-torn-read.diff.  "
+    "PARTIAL: (1) the screen theorem is proved for constant-height sessions only; today's code breaks the general statement "
     "(known findings live-print-vs-taller-refresh / -shorter-refresh / -stop / -start, one root cause: Console.print reads the display "
     "state in process_renderables and writes later outside the live lock; no small repair).  (2) Preemption inside one source line and "
     "C-level reentrancy are not exhibited; the model's atomic actions are the statement sequences between two shared accesses, and the "
